@@ -44,7 +44,7 @@ ASSUMPTIONS = [
 KINDS = ("supervised", "semi", "unsup")
 
 
-EXPECTED_PROBES = ['non_contiguous_data_set', 'non_float64_data_set', 'asymmetric_metric', 'call_raises_consistently', 'file_overwritten_after_a_model_read_it', 'fit_after_file_overwritten', 'integer_valued_metric', 'non_identity_index_array', 'path_overwritten', 'unsupervised_best_k_gt_1']
+EXPECTED_PROBES = ['refit_with_other_index_set', 'non_contiguous_data_set', 'non_float64_data_set', 'asymmetric_metric', 'call_raises_consistently', 'file_overwritten_after_a_model_read_it', 'fit_after_file_overwritten', 'integer_valued_metric', 'non_identity_index_array', 'path_overwritten', 'unsupervised_best_k_gt_1']
 
 SLOW_ARMS = ("restart",)
 
@@ -100,6 +100,17 @@ def gen_case(rng, arm, tier, k=0):
         D = [[float(int(abs(v)) % 4) for v in r] for r in D]
     mk = rng.randint(1, max(1, min(4, len(train) - 1)))
     case = {"kind": kind, "metric": metric, "style": style, "ext": ext, "D": D, "Y": Y, "train": train, "unl": unl, "test": test, "max_k": mk, "min_k": rng.randint(1, mk), "dtype": dtype, "layout": rng.choice(("c", "c", "c", "f", "strided", "cols"))}
+    # an alternative selection/order of the labelled rows for re-fits of the same model objects
+    if kind == "semi":
+        tr2 = list(train)
+        rng.shuffle(tr2)
+        alt = {"train": tr2, "unl": list(unl), "test": list(test)}
+    else:
+        idx2 = list(range(N))
+        rng.shuffle(idx2)
+        n2 = rng.randint(max(2, K), max(max(2, K), N - 1))
+        alt = {"train": idx2[:n2], "unl": [], "test": idx2[n2:] or idx2[:1]}
+    case["alt"] = alt
     metric2 = rng.choice(ALL_METRICS if style not in ("generic",) else sorted(REAL_DOMAIN))
     if dtype != "float64":
         metric2 = rng.choice(B.DTYPE_METRICS)
@@ -112,7 +123,7 @@ def gen_case(rng, arm, tier, k=0):
             ops.append(["new", rng.choice(sorted(files))])
             models += 1
         elif r < 0.40:
-            ops.append(["fit", rng.randrange(models)])
+            ops.append(["fit", rng.randrange(models)] + (["alt"] if rng.random() < 0.3 else []))
         elif r < 0.70:
             ops.append(["predict", rng.randrange(models), [rng.randrange(len(test)) for _ in range(rng.randint(1, 6))]])
         elif r < 0.80:
@@ -198,6 +209,10 @@ def run_case(case):
         states = set()
         identity = tr == list(range(len(tr)))
         compared_pred = False
+        alt_ok = False
+        if case.get("alt"):
+            probe_case = dict(case, train=case["alt"]["train"], unl=case["alt"]["unl"], test=case["alt"]["test"])
+            alt_ok = valid(probe_case)
 
         def in_memory(metric):
             fn = B.distance.DISTANCES[metric]
@@ -247,7 +262,7 @@ def run_case(case):
                             i, j = ij[0]
                             where = ": entry [%d][%d] is %r, metric gives %r" % (i, j, float(got[i, j]), float(want[i, j]))
                     raise Stop(violation("file-matrix-differs", "the matrix read back from the .%s file written by pre_compute_distance(%s) differs from the metric evaluated in memory%s (shape %s vs %s)" % (ext, metric, where, getattr(got, "shape", None), want.shape), metric_class=metric_class(metric), **facts))
-                models.append(dict(A=A, B=Bm, metric=metric, f=f, gen=file_gen[f], fitted=False))
+                models.append(dict(A=A, B=Bm, metric=metric, f=f, gen=file_gen[f], fitted=False, sel=(tr, un, te)))
                 if metric in ASYMMETRIC:
                     bump(out.probes, "asymmetric_metric")
                 if metric == "hamming":
@@ -260,6 +275,16 @@ def run_case(case):
                 stale = file_gen[md["f"]] != md["gen"]
                 if kop == "fit":
                     out.steps += 1
+                    if len(op) > 2 and op[2] == "alt" and alt_ok:
+                        md["sel"] = (case["alt"]["train"], case["alt"]["unl"], case["alt"]["test"])
+                        bump(out.probes, "refit_with_other_index_set")
+                    elif len(op) <= 2:
+                        md["sel"] = (tr, un, te)
+                    s_tr, s_un, s_te = md["sel"]
+                    Xtr, Ytr, Itr = D[s_tr], Y[s_tr], iarr(s_tr)
+                    Xun = D[s_un] if s_un else np.zeros((0, D.shape[1]), dtype=D.dtype)
+                    tr_all = list(s_tr) + (list(s_un) if kind == "semi" else [])
+                    md["tr_all"] = tr_all
                     if kind == "semi":
                         ra = attempt(A.fit, Xtr.copy(), Ytr.copy(), Xun.copy(), Itr.copy())
                         rb = attempt(Bm.fit, Xtr.copy(), Ytr.copy(), Xun.copy())
@@ -289,7 +314,8 @@ def run_case(case):
                     if not md["fitted"]:
                         continue
                     out.steps += 1
-                    batch = [te[b % len(te)] for b in op[2]]
+                    s_te = md["sel"][2]
+                    batch = [s_te[b % len(s_te)] for b in op[2]]
                     if not batch:
                         continue
                     Xq, Iq = D[batch], iarr(batch)
@@ -316,6 +342,7 @@ def run_case(case):
                         nodes = mdl.subgraph.nodes
                         fn = B.distance.DISTANCES[metric]
                         n = len(nodes)
+                        tr_all = md.get("tr_all", tr_all)
                         E = np.zeros((n, n))
                         for i in range(n):
                             for j in range(n):
@@ -343,7 +370,8 @@ def run_case(case):
 
                 metric = file_metric[f]
                 Bm = make(kind, metric, case)
-                rb = attempt(Bm.fit, *((Xtr.copy(), Ytr.copy(), Xun.copy()) if kind == "semi" else (Xtr.copy(), Ytr.copy())))
+                Xun0 = D[un] if un else np.zeros((0, D.shape[1]), dtype=D.dtype)
+                rb = attempt(Bm.fit, *((D[tr].copy(), Y[tr].copy(), Xun0.copy()) if kind == "semi" else (D[tr].copy(), Y[tr].copy())))
                 req = {"c10": True, "kind": kind, "metric": metric, "path": paths[f], "D": case["D"], "Y": case["Y"], "train": tr, "unl": un, "test": te, "max_k": case["max_k"], "min_k": case["min_k"], "dtype": case.get("dtype", "float64"), "layout": case.get("layout", "c")}
                 rep = c19.restart_query(req)
                 bump(out.faults, "restart_fresh_interpreter")
